@@ -267,10 +267,60 @@ def operand_order_rule(ck, F, prefix):
             ck.check(R, sid, not later, f'{f["id"]} (line {m.get("ln")}) applies std::{c.get("name")} to its local `{x.get("name")}` and uses it afterwards (line '
                      f'{later[0].get("ln") if later else "?"}): the node is found or built from the operands in another order than the one the request gave',
                      loc=f['loc'], fn=f['id'])
+    # a sequence the library *stores* (the Lexicon's copy of a Warehouse, the rows of a product) is never reordered in place: nodes
+    # already built over it would change their operands, and a table keyed on the sequence would no longer be ordered
+    for f in sorted(F.fn.values(), key=lambda f: f['id']):
+        if f.get('body') is None or not f['loc'].startswith(('src/', 'include/')) or not (f.get('parent') or '').startswith(('ipr::impl::', 'ipr::util::')):
+            continue
+        for m in walk(f['body']):
+            c = m.get('callee') or {}
+            if m.get('k') != 'call' or c.get('repo') is not False or c.get('name') not in REORDERING or not (c.get('q') or c.get('id') or '').startswith('std::'):
+                continue
+            a0 = strip_casts((m.get('args') or [{}])[0] or {})
+            src = a0.get('obj') if a0.get('k') == 'call' and (a0.get('callee') or {}).get('name') in ('begin', 'rbegin', 'data') else None
+            src = strip_casts(src or {})
+            own = src.get('k') == 'this' or (src.get('k') == 'member' and strip_casts(src.get('base') or {}).get('k') == 'this') \
+                or (src.get('k') == 'unop' and strip_casts(src.get('e') or {}).get('k') == 'this')
+            if not own:
+                continue
+            n_sites += 1
+            found = True
+            ck.fail(R, contracts.short(contracts.fn_qname(f['id'])) + f':{m.get("ln")}', f'{f["id"]} (line {m.get("ln")}) applies std::{c.get("name")} to the '
+                    'elements the object itself stores: a sequence that nodes and tables already refer to is reordered in place', loc=f['loc'], fn=f['id'])
     if n_sites == 0:
         ck.check(R, 'inventory', True, '')
     return found
 
+
+
+def bitfield_rule(ck, F, prefix):
+    """<prefix>.bit-fields-hold-their-enum: a data member declared as a bit-field of an enumeration type is wide enough, with the sign of
+    the underlying type taken into account, for every enumerator: otherwise the value read back is not the value stored."""
+    R = ck.rule(f'{prefix}.bit-fields-hold-their-enum', 'a bit-field of enumeration type holds every enumerator of that type (width and sign of the '
+                'underlying type considered): a flag stored in a member that is too narrow -- or signed, with the top value needing the sign bit -- '
+                'reads back as another value', floor=1)
+    SIGNED = ('int', 'long', 'short', 'signed char', 'long long', 'char')
+    n = 0
+    for name, r in sorted(F.rec.items()):
+        if not name.startswith('ipr::'):
+            continue
+        for fl in r['fields']:
+            if 'bits' not in fl:
+                continue
+            t = fl['t'].replace('const ', '').strip()
+            en = F.enums.get(t)
+            if en is None:
+                continue
+            n += 1
+            b = int(fl['bits'])
+            signed = (en.get('underlying') or 'int') in SIGNED
+            lo, hi = (-(1 << (b - 1)), (1 << (b - 1)) - 1) if signed else (0, (1 << b) - 1)
+            vals = [int(e['value']) for e in en.get('enumerators', [])]
+            bad = [v for v in vals if not lo <= v <= hi]
+            ck.check(R, f'{contracts.short(name)}::{fl["name"]}', not bad, f'{name}::{fl["name"]} is a {b}-bit field of {t} (underlying {en.get("underlying")}, '
+                     f'so it holds {lo}..{hi}); the enumerator value(s) {bad[:4]} do not fit and read back as other values', loc=r['loc'])
+    if n == 0:
+        ck.check(R, 'inventory', True, '')
 
 
 def run(ck, F):
@@ -284,6 +334,7 @@ def run(ck, F):
         '(tables/factory_contract.json); independent of the table, no parameter may be dropped.')
     with open(TABLE) as fh:
         table = json.load(fh)['contracts']
+    bitfield_rule(ck, F, 'C02')
     if operand_order_rule(ck, F, 'C02'):
         return          # (the reordering code is outside the evaluator's language; the violation stands on its own)
     cur = wire.compute(F)
